@@ -35,6 +35,8 @@ ACTablesOK(c) == c.t >= c.size /\ c.m >= c.size
 
 \* a save through a stream that accepts `limit` bytes (ArenaSave.tla: ResultHonest and OriginalIntact seen from outside)
 ERROR_WRITING_FILE == 58
+\* a save in which ONE write failed (the following ones would succeed again) reports the failure, and what it left behind does not load
+LeftoverOK(c) == c.save = ERROR_WRITING_FILE /\ c.load # 0
 SaveFailOK(c) == /\ (c.limit < c.full => c.ret = ERROR_WRITING_FILE)
                  /\ (c.limit >= c.full => c.ret = 0)
                  /\ AuditOK(c) /\ c.same
